@@ -120,6 +120,22 @@ def abstract(op, obs):
     return {"kind": "other", "errs": [{"loc": "", "reason": json.dumps(obs, sort_keys=True)[:200]}]}
 
 
+def _to_val(x):
+    if x is None:
+        return dict(C.NULL)
+    if isinstance(x, bool):
+        return C.mk_bool(x)
+    if isinstance(x, int):
+        return C.mk_int(x)
+    if isinstance(x, float):
+        return C.mk_float(x)
+    if isinstance(x, str):
+        return C.mk_text(x)
+    if isinstance(x, list):
+        return C.mk_arr([_to_val(i) for i in x])
+    return C.mk_map([(C.mk_text(k), _to_val(v)) for k, v in x.items()])
+
+
 def corpus(rnd, n):
     ops = []
     for fmt in ("json", "cbor"):
@@ -140,6 +156,22 @@ def corpus(rnd, n):
     texts += ["a = ", "a = [", "= int", "a = {b: }", "a = 1 b = 2", "a = int\nb = a / tstr\n", "a = #6.32(tstr)\n", "a = { * tstr => any }\n", "a<T> = [T]\nb = a<int>\n"]
     for tx in texts:
         ops.append({"op": "parse", "cddl": tx})
+    # control operators beyond RFC 8610 (feature additional-controls, some need freezer): same verdict wherever they exist
+    abnf = "stamp = text .abnf (\"stamp\" .det grammar)\ngrammar = '\n  stamp = 4DIGIT \"-\" 2DIGIT\n  DIGIT = %x30-39\n'\n"
+    extra = [(abnf, '"2024-06"', []), (abnf, '"20x4-06"', []),
+             ('a = tstr .regexp "[a-c]+"\n', '"abc"', []), ('a = tstr .regexp "[a-c]+"\n', '"abd"', []),
+             ('a = tstr .pcre "^a.c$"\n', '"abc"', ["freezer"]), ('a = tstr .pcre "^a.c$"\n', '"abcd"', ["freezer"]),
+             ('a = tstr .iregexp "a[0-9]"\n', '"a1"', ["freezer"]), ('a = tstr .iregexp "a[0-9]"\n', '"ab"', ["freezer"]),
+             ('a = "foo" .cat "bar"\n', '"foobar"', []), ('a = "foo" .cat "bar"\n', '"foo"', []),
+             ('a = 1 .plus 2\n', '3', []), ('a = 1 .plus 2\n', '4', []),
+             ('a = uint .bits flags\nflags = &(x: 0, y: 2)\n', '5', []), ('a = uint .bits flags\nflags = &(x: 0, y: 2)\n', '2', []),
+             ('a = tstr .b64u \'hello\'\n', '"aGVsbG8"', []), ('a = tstr .b64u \'hello\'\n', '"aGVsbG8h"', []),
+             ('a = tstr .hexlc \'hi\'\n', '"6869"', []), ('a = tstr .hexlc \'hi\'\n', '"6869ff"', []),
+             ('a = tstr .default "x"\n', '"y"', []), ('a = [* int] .eq [1, 2]\n', '[1,2]', []), ('a = [* int] .ne [1, 2]\n', '[1,2]', []),
+             ('a = tstr .feature "f"\n', '"x"', []), ('a = tstr .feature "f"\n', '1', [])]
+    for sch, doc, uses in extra:
+        ops.append({"op": "validate_json", "cddl": sch, "json": doc, "uses": uses})
+        ops.append({"op": "validate_cbor", "cddl": sch, "hex": bytes(C.encode(_to_val(json.loads(doc)))).hex(), "uses": uses})
     for i, o in enumerate(ops):
         o["id"] = i + 1
     return ops
@@ -206,9 +238,9 @@ def run():
                 spaced.setdefault(o["id"], set()).add(" ".join(ob.get("fmt", "").split()))
         provided = {"parse"} | ({"validate_json"} if "json" in s else set()) | ({"validate_cbor"} if "cbor" in s else set())
         for o, ob in zip(ops, obs):
-            if o["op"] not in provided:
+            if o["op"] not in provided or not set(o.get("uses", [])) <= set(s):
                 continue
-            events.append({"ev": "Call", "set": list(s), "op": o["op"], "id": o["id"], "res": abstract(o, ob)})
+            events.append({"ev": "Call", "set": list(s), "op": o["op"], "uses": o.get("uses", []), "id": o["id"], "res": abstract(o, ob)})
             where.append(("call", s, o, ob))
             answered += 1
     shutil.rmtree(bindir, ignore_errors=True)
